@@ -259,6 +259,8 @@ package internal
 //@   ghost cf compiledFunc
 //@   at call compileFunction 1 ghost cf = ret
 //@   ensures [C01,C11] task-and-predicate-functions-are-new-distinct-objects: implies(result != nil, result.Function != nil && forall(i, int, implies(0 <= i && i < len(flow.Funcs), flow.Funcs[i] != result.Function)) && implies(result.Predicate != nil, result.Predicate.Function != nil && result.Predicate.Function != result.Function && forall(i, int, implies(0 <= i && i < len(flow.Funcs), flow.Funcs[i] != result.Predicate.Function))))
+//@   ensures [C02,C10,C13] serial-numbers-are-handed-out-once: implies(result != nil, result.Serial == old(c.taskSerial) && c.taskSerial == old(c.taskSerial) + 1)
+//@   ensures [C14] a-task-without-results-needs-invoke-and-invoke-needs-no-results: implies(result != nil && ((len(result.Outputs) == 0 && result.invokeType == nil) || (len(result.Outputs) > 0 && result.invokeType != nil)), len(c.errors) > old(len(c.errors)))
 //@   ensures [C02,C11] task-keeps-the-compiled-functions-signature-inputs-and-outputs: implies(result != nil, result.Inputs == cf.Inputs && result.Outputs == cf.Outputs && result.Function != nil && result.Function.Task == result && result.Function.Sig == cf.Sig && result.Function.WantCtx == cf.WantCtx && result.Function.HasError == cf.HasError && result.Function.Node == cf.Node)
 //@   ensures [C01,C02,C11] dependencies-are-the-inputs-then-the-predicates-sentinel: implies(result != nil, len(result.Function.Dependencies) == len(result.Inputs) + ite(result.Predicate != nil, 1, 0) && forall(k, int, implies(0 <= k && k < len(result.Inputs), result.Function.Dependencies[k] == result.Inputs[k])) && implies(result.Predicate != nil, dataof(result.Function.Dependencies[len(result.Inputs)]) == result.Predicate.SentinelOutput && typeof(result.Function.Dependencies[len(result.Inputs)]) == typeid("*go/types.Struct")))
 
@@ -541,6 +543,10 @@ package internal
 //@   loop 2 invariant [C01,C02,C11] providers-appended-so-far: 0 <= idx2 && idx2 <= len(deps2) && 0 <= idx && idx < len(f.Funcs) && fn == f.Funcs[idx] && forall(j, int, implies(0 <= j && j < idx2, 0 <= v[j] && v[j] < len(fn.DependsOn) && fn.DependsOn[v[j]] == f.Funcs[deps2[j]])) && forall(i, int, implies(0 <= i && i < idx, $SCHEDULED))
 //@   at call Dependencies 1 ghost deps2 = ret
 //@   at store DependsOn 1 ghost v[idx2] = len(target.DependsOn) - 1
+//@   ghost ord slice[int]
+//@   at call toposort 1 ghost ord = ret
+//@   loop 3 invariant [C02,C10] order-built-so-far-follows-the-topological-order: 0 <= idx3 && idx3 <= len(ord) && len(topo) == idx3 && forall(j, int, implies(0 <= j && j < idx3, topo[j] == f.Funcs[ord[j]])) && forall(k, int, implies(0 <= k && k < len(f.Funcs), exists(j, int, 0 <= j && j < len(ord) && ord[j] == k))) && forall(j, int, implies(0 <= j && j < len(ord), 0 <= ord[j] && ord[j] < len(f.Funcs)))
+//@   ensures [C02,C10] every-function-is-in-the-generation-order: forall(i, int, implies(0 <= i && i < len(f.Funcs), exists(j, int, 0 <= j && j < len(f.TopoFuncs) && f.TopoFuncs[j] == f.Funcs[i])))
 //@   ensures [C01,C02,C11] every-function-depends-on-the-provider-of-each-of-its-dependencies: forall(i, int, implies(0 <= i && i < len(f.Funcs), forall(k, int, implies(0 <= k && k < len(f.Funcs[i].Dependencies) && $HASPROVI, exists(j, int, 0 <= j && j < len(f.Funcs[i].DependsOn) && f.Funcs[i].DependsOn[j] == f.Funcs[$PROVI])))))
 
 // ---------------------------------------------------------------------------
